@@ -311,20 +311,21 @@ def column_page(geo, bbs):
     return not inner or not cross or max(inner) < min(cross)
 
 
-def c09_failures(cont, items, la, facts=None):
+def c09_failures(cont, items, la, facts=None, bounds=None):
     """-> [(key, message)]; evaluates the documented grouping predicates on the analysed container with exact rational
     arithmetic.  Where that fails but the same predicates evaluated in binary64 (as the library computes them) hold, the
     case is rounding-sensitive (a gap that equals its threshold to the last place): counted in facts["rounding"], not a
     failure - binary64 rounding is outside the property."""
-    bad = c09_failures_with(cont, items, la, True, facts)
-    if bad and not c09_failures_with(cont, items, la, False, None):
+    bad = c09_failures_with(cont, items, la, True, facts, bounds)
+    if bad and not c09_failures_with(cont, items, la, False, None, bounds):
         if facts is not None:
             facts["rounding"] = facts.get("rounding", 0) + 1
         return []
     return bad
 
 
-def c09_failures_with(cont, items, la, exact, facts=None):
+def c09_failures_with(cont, items, la, exact, facts=None, bounds=None):
+    """bounds: the box the container is known to have (a generated page); default: the box the container says it has"""
     bad = []
     chars = [o for o in items if isinstance(o, LTChar)]
     if not chars or not analysed(cont, la):
@@ -353,7 +354,9 @@ def c09_failures_with(cont, items, la, exact, facts=None):
         bad.append(("space-iff", "word spaces %r, documented word_margin gives %r" % (got[:6], ref[:6])))
     # boxes = connected components of the documented neighbour relation (lines inside the container only)
     tls = [ln for _, ls in boxes for ln in ls]
-    if tls and all(in_bounds(cont, ln.bbox) for ln in tls):
+    inside = (lambda bb: bounds[0] <= bb[0] and bounds[1] <= bb[1] and bb[2] <= bounds[2] and bb[3] <= bounds[3]) \
+        if bounds is not None else (lambda bb: in_bounds(cont, bb))
+    if tls and all(inside(ln.bbox) for ln in tls):
         lb = [geo.b(ln.bbox) for ln in tls]
         lo = [orient(ln) for ln in tls]
         comps = components(len(tls), lambda i, j: geo.neighbor(lo[i], lb[i], lb[j], lo[j]))
